@@ -830,7 +830,7 @@ func (f fieldGroupGenerator) Zap(g Generator) error {
 		}
 		`, f,
 		TemplateFunc("zapOptOut", zapOptOut),
-		TemplateFunc("fieldLabel", entityLabel),
+		TemplateFunc("fieldLabel", quotedLabel),
 		TemplateFunc("shouldRedact", shouldRedact),
 		TemplateFunc("redactedContent", redactedContent),
 	)
